@@ -511,6 +511,22 @@ def install(T: Theory):
             return Arr(ln, a.dtype, ntaps=a.ntaps, tap=tap)
         return Arr(ln, a.dtype, elem=lambda i: z3.If(inside(i), a.elem(simp(zi(i) - p)), R0))
 
+    @T.ext('jax.numpy.flip', 'numpy.flip')
+    def _flip(interp, a, axis=None):
+        """jnp.flip of a 1-D array: element k is a[n - 1 - k] (same as a[::-1])"""
+        if not isinstance(a, Arr) or concrete(axis) not in (None, 0, -1):
+            raise Unsupported('flip: a 1-D array along its only axis')
+        n = zi(a.length)
+        return a.reindex(a.length, lambda k: simp(n - 1 - zi(k)))
+
+    @T.ext('jax.numpy.matmul', 'jax.numpy.dot')
+    def _matmul(interp, m, x):
+        """jnp.matmul(M, x) / jnp.dot(M, x) for a matrix and a vector: M @ x"""
+        r = m.py_binop(interp, 'MatMult', x, False) if isinstance(m, Matrix) else NOT_IMPLEMENTED
+        if r is NOT_IMPLEMENTED:
+            raise Unsupported('matmul outside the modelled form matrix @ vector')
+        return r
+
     @T.ext('jax.numpy.concatenate')
     def _concat(interp, parts, axis=0):
         parts = list(parts)
